@@ -405,44 +405,20 @@ calculate_32bit_addressing: // Label for the 32-bit logic start
 			}
 		}
 
-		// Handle special case: mod=00 and base=EBP ([EBP+index*scale+disp32])
-		// In this case, base field must be 5 (EBP), and a disp32 is always present.
-		if mod == 0b00000000 && baseNum == 5 { // baseNum 5 corresponds to EBP
-			// Base field remains 5, mod remains 00.
-			// Ensure disp32 is handled correctly later.
-			hasDisp = true // This combination always requires disp32
-		} else if mem.BaseReg == "" { // No base register specified, implies base=EBP if mod=00
-			// If there's no base register explicitly, and mod is 00,
-			// the base field in SIB must be 5 (meaning disp32 follows).
-			if mod == 0b00000000 {
-				baseNum = 5
-				hasDisp = true // Requires disp32
-			}
-			// If mod is 01 or 10, baseNum should reflect the actual base register (or lack thereof).
-			// If BaseReg is truly empty, baseNum should technically be 5,
-			// but the ModRM calculation logic might have already set mod to 01/10 based on displacement.
-			// Let's stick with baseNum=5 if BaseReg is empty for SIB calculation.
-			if mem.BaseReg == "" {
-				baseNum = 5
-			}
+		if mem.BaseReg == "" {
+			// [index*scale+disp]: base=101 with mod=00 is the only encoding without a base register,
+			// and it always carries a disp32 (with mod=01/10 the same base field means EBP).
+			baseNum = 5
+			mod = 0b00000000
+			hasDisp = true
+		} else if baseNum == 5 && mod == 0b00000000 {
+			// [EBP+index*scale]: mod=00 with base=101 would drop EBP, so encode it with disp8 = 0.
+			mod = 0b01000000
+			disp = 0
+			hasDisp = true
 		}
 
 		sibByte = scale | (byte(indexNum) << 3) | byte(baseNum)
-
-		// Re-evaluate displacement requirement based on SIB base encoding
-		// If base is EBP (5) and mod is 00, disp32 is required.
-		// If base is EBP (5) and mod is 01, disp8 is required.
-		// If base is EBP (5) and mod is 10, disp32 is required.
-		if baseNum == 5 { // EBP or disp32 base
-			if mod == 0b00000000 { // [disp32+index*scale]
-				mod = 0b00000000 // Keep mod 00
-				hasDisp = true   // Force disp32
-			} else if mod == 0b01000000 { // [EBP+index*scale+disp8]
-				hasDisp = true // Requires disp8
-			} else { // [EBP+index*scale+disp32]
-				hasDisp = true // Requires disp32
-			}
-		}
 	}
 
 	// Generate displacement bytes
